@@ -129,4 +129,50 @@ def cntR (keys : List (Expr × Expr)) (R : List Row) (k : List Val) : Nat := siz
 def blockRow (keys : List (Expr × Expr)) (L R : List Row) (k : List Val) : Row :=
   [Val.int (cntL keys L k : Nat), Val.int (cntR keys R k : Nat), Val.int ((cntL keys L k : Nat) * (cntR keys R k : Nat))]
 
+/-! ## `__splink__df_concat` (`vertically_concatenate_sql`, no salt, no source dataset column given)
+
+A Python loop over the input tables: one table — `select <columns> from t`; several — the `UNION ALL` of
+`select '<table alias>' as source_dataset, <columns> from t`.  `w` = the number of columns (the first table's, resolved by
+name in every table; here by position: the tables list their columns in the same order). -/
+
+/-- `select c_0, …, c_{w-1} from name` -/
+def concatOne (w : Nat) (name : String) : Rel := Rel.project ((List.range w).map Expr.col) (Rel.table name)
+
+/-- `select '<name>' as source_dataset, c_0, …, c_{w-1} from name` -/
+def concatTerm (w : Nat) (name : String) : Rel :=
+  Rel.project (Expr.lit (Val.str name) :: (List.range w).map Expr.col) (Rel.table name)
+
+/-- the statement for the input tables `names` -/
+def concatStmt (w : Nat) : List String → Rel
+  | [] => Rel.table ""
+  | [n] => concatOne w n
+  | n :: ns => ns.foldl (fun acc m => Rel.union true acc (concatTerm w m)) (concatTerm w n)
+
+/-- the rows of `__splink__df_concat` -/
+def concatRows (names : List String) (db : Db) : List Row :=
+  match names with
+  | [n] => db n
+  | _ => names.flatMap fun n => (db n).map fun row => Val.str n :: row
+
+/-- the whole self-join pipeline of `count_comparisons_from_blocking_rule`, `__splink__df_concat` included -/
+def selfCountStmts (w : Nat) (names : List String) (keys : List (Expr × Expr)) : List Stmt :=
+  ⟨nameConcat, concatStmt w names⟩ :: countStmts false keys
+
+/-! ## `_row_counts_per_input_table` -/
+
+def nameCount : String := "__splink__df_count"
+
+/-- `if link_type == "dedupe_only": count(*)  elif source_dataset_input_column is not None: count(*) … group by <sd>` -/
+def rowCountStmt (dedupe : Bool) (sd : Expr) : Rel :=
+  if dedupe then Gen.BCountSql.rowCountAll else Gen.BCountSql.rowCountBySd sd
+
+/-- `rc_df.as_record_dict()` -/
+def rowCounts (dedupe : Bool) (sd : Expr) (db : Db) : List Row := (rowCountStmt dedupe sd).eval db
+
+/-- `[r["count"] for r in rc]` — what `calculate_cartesian` sums -/
+def countsOf (rows : List Row) : List Nat :=
+  rows.map fun r => match r with
+    | [Val.int i] => i.toNat
+    | _ => 0
+
 end SplinkVerif.BCountSql
